@@ -283,11 +283,14 @@ pub fn run_random(w: &World, rng: &mut Rng, cfg: &SchedCfg) -> History {
     let mut steps = vec![];
     let mut decisions = vec![];
     let mut cut = false;
+    let mut total_bytes = 0usize;
     loop {
         if st.quiescent() {
             break;
         }
-        if steps.len() >= cfg.max_steps {
+        // size bounds next to the step bound: a history whose data grows beyond them is cut (counted,
+        // excluded from the quiescence clauses) -- every step keeps three decoded copies of its data
+        if steps.len() >= cfg.max_steps || total_bytes > 6_000_000 {
             cut = true;
             break;
         }
@@ -323,7 +326,13 @@ pub fn run_random(w: &World, rng: &mut Rng, cfg: &SchedCfg) -> History {
         };
         decisions.push(d.clone());
         if let Some(s) = st.apply(w, &d, &mut cache, steps.len()) {
+            total_bytes += s.out.data.len();
+            let too_big = s.out.data.len() > 300_000;
             steps.push(s);
+            if too_big {
+                cut = true;
+                break;
+            }
         }
     }
     History { steps, decisions, quiescent: !cut && st.quiescent(), cut, dropped_unknown: st.dropped_unknown, final_state: st }
